@@ -134,6 +134,10 @@ fn run_c11(r: &mut Rng, n: u64) {
     let ext: Vec<u8> = alpha.iter().cloned().chain([b'!', b'-', b'_', 0x7f, b'=']).collect();
     for &a in &ext { vlq_parse_case(&format!("x{}", k), &[a]); k += 1; for &b in &ext { vlq_parse_case(&format!("x{}", k), &[a, b]); k += 1; } }
     for p in 0..62 { for d in [-1i64, 0, 1] { let v = (1i64 << p) + d; if v.unsigned_abs() < (1u64 << 62) { vlq_gen_case(&format!("x{}", k), &[v]); k += 1; vlq_gen_case(&format!("x{}", k), &[-v]); k += 1; } } }
+    // exhaustive: every integer in a window around 0 (quick: +-4096, thorough: +-2^17), every alphabet string of length <= 2 (thorough: <= 3)
+    let w: i64 = if n >= 100_000 { 1 << 17 } else { 4096 };
+    for v in -w..=w { vlq_gen_case(&format!("w{}", v), &[v]); }
+    if n >= 100_000 { for a in alpha.iter() { for b in alpha.iter() { for c in alpha.iter() { vlq_parse_case(&format!("e{}{}{}", *a as char, *b as char, *c as char), &[*a, *b, *c]); } } } }
     for i in 0..n {
         let id = format!("r{}", i);
         if r.below(2) == 0 {
@@ -146,6 +150,21 @@ fn run_c11(r: &mut Rng, n: u64) {
             vlq_gen_case(&id, &ns);
         }
     }
+}
+/// thorough tier only: generate;parse round trip on the crate alone for EVERY integer in [-(2^32-1), 2^32-1] (all the map encoder ever
+/// emits), 16 threads; one summary case per chunk. A test, not a proof: the theorem is C11_decode_encode.
+fn run_vlq_sweep(_r: &mut Rng, n: u64) {
+    let lim: i64 = if n >= 1000 { (1i64 << 32) - 1 } else { (1i64 << 24) - 1 };      // quick callers get a 2^25-value window
+    let chunks = 64i64; let span = (2 * lim + 1 + chunks - 1) / chunks;
+    let results: Vec<(i64, i64, u64, i64)> = std::thread::scope(|sc| { let hs: Vec<_> = (0..16).map(|t| sc.spawn(move || { let mut out = vec![];
+        for c in (t as i64..chunks).step_by(16) { let from = -lim + c * span; let to = (from + span - 1).min(lim); let mut bad = 0u64; let mut first = 0i64;
+            let mut buf = String::new();
+            let mut v = from; while v <= to { buf.clear();
+                let ok = match vlq::generate_vlq_segment(&[v]) { Ok(s) => { buf.push_str(&s); matches!(vlq::parse_vlq_segment(&buf), Ok(ref p) if p.len() == 1 && p[0] == v) } Err(_) => false };
+                if !ok { if bad == 0 { first = v; } bad += 1; } v += 1; }
+            out.push((from, to, bad, first)); } out })).collect(); hs.into_iter().flat_map(|h| h.join().unwrap()).collect() });
+    let mut results = results; results.sort();
+    for (from, to, bad, first) in results { outln!("s{}\tvlq_sweep\t{}\t{}\t{}\t{}", from, from, to, bad, first); }
 }
 fn run_codec(r: &mut Rng, n: u64, ranges: bool) {
     // explicit witnesses of the fixed findings
@@ -1107,6 +1126,7 @@ fn main() {
     let mut r = Rng(seed);
     match prop {
         "vlq" => run_c11(&mut r, n),
+        "vlq_sweep" => run_vlq_sweep(&mut r, n),
         "codec" => run_codec(&mut r, n, false),
         "codec_ranges" => run_codec(&mut r, n, true),
         "keys" => run_keys(&mut r, n),
